@@ -43,6 +43,11 @@ def gen_cases(tier, seed):
         out.append(d)
     out.extend(preempt.gen_descs(tier, seed, ID))  # deterministic single-preemption enumeration (vmon/preempt.py)
     for i in range(max(30, n // 40)):
+        s = env.seed_for(seed, ID, tier, "interrupted", i)
+        r = random.Random(env.seed_for(s, "descriptor"))
+        out.append({"seed": s, "mode": "interrupted", "n": r.randint(3, 14), "W": r.choice([1, 2, 4]), "sched": r.choice(["default", "random"]), "perturb": "none", "delays": "none",
+                    "k": r.choice([1, 1, 2, 3, 5]), "cfg": {"out": r.choice(["all", "sinks"])}})
+    for i in range(max(30, n // 40)):
         s = env.seed_for(seed, ID, tier, "cyclic", i)
         r = random.Random(env.seed_for(s, "descriptor"))
         out.append({"seed": s, "mode": "cyclic", "n": r.randint(3, 16), "W": r.choice([1, 2, 4]), "sched": r.choice(["default", "random"]), "perturb": "none", "delays": "none",
@@ -86,6 +91,57 @@ def run_cyclic(desc):
     return res
 
 
+def run_interrupted(desc):
+    """The caller is interrupted (a real SIGINT) while the k-th call executes. What run then does is C17's business - but IF it returns normally,
+    that is a successful run, and a successful run has executed everything its output needs, once."""
+    import hashlib
+    import signal
+    import threading
+    import time
+
+    if threading.current_thread() is not threading.main_thread():
+        return {"status": "ok", "counters": {"interrupt_cases_skipped_not_main_thread": 1}, "nontrivial": False}
+    if signal.getsignal(signal.SIGINT) is not signal.default_int_handler:
+        signal.signal(signal.SIGINT, signal.default_int_handler)
+    st = {"n": 0, "fired": False}
+    lock = threading.Lock()
+    main_ident = threading.main_thread().ident
+    holder = {}
+
+    def pre(nid, att):
+        with lock:
+            st["n"] += 1
+            hit = st["n"] == desc["k"] and not st["fired"]
+            if hit:
+                st["fired"] = True
+        if hit:
+            holder["H"].interrupt_sent = True
+            if desc["seed"] % 2:
+                time.sleep(0.006)  # (half of the cases: the caller has finished starting its workers and waits for them)
+            signal.pthread_kill(main_ident, signal.SIGINT)
+            time.sleep(0.03)
+
+    R = None
+    try:
+        R = plainrun.execute(desc, pre=pre, record_args=False, before_run=lambda R_: holder.__setitem__("H", R_.H))
+        for _ in range(20):
+            time.sleep(0.0005)  # an interrupt that was not handled inside run surfaces here
+    except KeyboardInterrupt:
+        pass
+    counters = {"interrupted_runs": 1, "interrupted_runs_that_returned_normally": 0}
+    res = {"status": "ok", "counters": counters, "nontrivial": st["fired"], "sig": hashlib.sha1(f"interrupted|{desc['seed']}".encode()).hexdigest()[:16]}
+    if R is not None and R.exc is None and st["fired"]:
+        counters["interrupted_runs_that_returned_normally"] = 1
+        needed = R.ir.needed() & set(R.ir.harness_calls())
+        executed = set(R.H.attempts)
+        over = {n_: c for n_, c in R.H.attempts.items() if c > 1}
+        if executed != needed or over:
+            res.update(status="violation", mechanism="execution-count", witness={"plan": R.ir.describe(60), "history": R.H.compact_history(120)},
+                       detail=f"[SIGINT to the caller during call #{desc['k']}, W={desc['W']}] run RETURNED NORMALLY (the interrupt was swallowed) having executed "
+                              f"{len(executed & needed)} of the {len(needed)} calls its output needs (never executed: {sorted(needed - executed)[:10]}; more than once: {over})")
+    return res
+
+
 def preempt_oracle(R, ir):
     H = R.H
     over = {nid: c for nid, c in H.attempts.items() if c > 1}
@@ -112,6 +168,8 @@ def run_case(desc):
         return preempt.enumerate_pairs(desc, preempt_oracle)
     if desc.get("mode") == "cyclic":
         return run_cyclic(desc)
+    if desc.get("mode") == "interrupted":
+        return run_interrupted(desc)
     R = plainrun.execute(desc, record_args=False)
     ir, H = R.ir, R.H
     calls = set(ir.harness_calls())
